@@ -152,7 +152,9 @@ XLATE = {"keep": ("keep", "true"), "no_retiming": ("dont_touch", "true"), "async
          "mr_ff": ("mr_ff", "true"), "ars_ff1": ("ars_ff1", "true")}
 
 ATTRS = ["a", "b", "x", "x_1", "x1", "a_b", "sink", "data", "reg", "wire", "repeat", "union", "uwire", "state",
-         "mem", "mem_1", "always", "x0", "b_1", "storage", "x_2"]
+         "mem", "mem_1", "always", "x0", "b_1", "storage", "x_2",
+         # names the memory generator gives its own address / data registers (<memory>_adr<port>, <memory>_dat<port>)
+         "mem_adr0", "mem_dat0", "mem_1_adr0", "storage_dat0"]
 
 
 def st_modules(tier):
@@ -175,7 +177,8 @@ def st_modules(tier):
             mems = []
             for _ in range(draw(st.integers(0, 2))):
                 mems.append({"attr": draw(st.one_of(st.none(), st.sampled_from(["mem", "mem_1", "storage", "reg", "x"]))),
-                             "named": draw(st.one_of(st.none(), st.sampled_from(["mem", "mem_1", "wire", "x_1"])))})
+                             "named": draw(st.one_of(st.none(), st.sampled_from(["mem", "mem_1", "wire", "x_1"]))),
+                             "read_first": draw(st.booleans())})
             insts = []
             for _ in range(draw(st.integers(0, 2))):
                 insts.append({"of": draw(st.sampled_from(["FOO", "BAR", "CELL_X"])),
@@ -194,7 +197,7 @@ def st_modules(tier):
 
 def _source(case):
     """Python source text for the generated module tree (so that the tracer sees real byte-code)."""
-    L = ["from migen import Module, Signal, Memory, Instance, ClockDomain, Record, Cat",
+    L = ["from migen import Module, Signal, Memory, Instance, ClockDomain, Record, Cat", "from migen.fhdl.specials import READ_FIRST",
          ""]
     classes = case["classes"]
     for ci in reversed(range(len(classes))):
@@ -247,7 +250,7 @@ def _source(case):
             else:
                 L.append("        mem = Memory(4, 4%s)" % nm)
                 L.append("        self.specials += mem")
-            L.append("        port = mem.get_port(write_capable=True)")
+            L.append("        port = mem.get_port(write_capable=True%s)" % (", mode=READ_FIRST" if m.get("read_first") else ""))
             L.append("        self.specials += port")
             L.append("        self.comb += [port.adr.eq(acc[-1]), port.dat_w.eq(acc[0]), port.we.eq(acc[-1][0])]")
             L.append("        acc.append(port.dat_r)")
